@@ -1245,6 +1245,10 @@ def b_hasattr(ex, st, args, kwargs, node):
 def b_getattr(ex, st, args, kwargs, node):
     name = args[1].conc() if isinstance(args[1], VStr) else None
     if name is None:
+        if not st.spec and (ex.cur_target or {}).get('default_callee') == 'opaque':
+            # dynamic dispatch by a computed name: an unknown attribute (calling it is an opaque event)
+            ex.used_stubs.add('getattr(obj, <computed name>): an unknown value (dynamic dispatch is an opaque call)')
+            return [(st, VOpaque(name='getattr'))]
         raise Unsupported('getattr with symbolic name')
     return ex.getattr(st, args[0], name, node)
 
@@ -1282,7 +1286,14 @@ def b_next(ex, st, args, kwargs, node):
 
 @builtin('callable')
 def b_callable(ex, st, args, kwargs, node):
-    return [(st, VBool(isinstance(args[0], VFunc)))]
+    v = args[0]
+    if isinstance(v, VOpt):
+        inner = b_callable(ex, st, [v.val], kwargs, node)[0][1]
+        return [(st, VBool(z3.And(z3.Not(v.isnone), inner.t)))]
+    if isinstance(v, VOpaque):
+        # an unknown value may or may not be callable: unknown, but a function of the value
+        return [(st, VBool(z3.Function('opaque_callable', ObjSort, z3.BoolSort())(v.t)))]
+    return [(st, VBool(isinstance(v, VFunc)))]
 
 
 @builtin('open')
